@@ -3,6 +3,8 @@
 import json, os, re, sys
 ROOT = os.path.join(os.path.dirname(os.path.abspath(__file__)), '..', 'seeded')
 NEEDS = {
+ 'C02_5': "the python operator `A | B` with an operand whose non-scalar coefficients are all below eps (1e-12), e.g. (2^-45 A) | (2^45 B)",
+ 'C02_6': "`A << B` / `A.lc(B)` on mixed-grade operands where the highest grade of A exceeds that of B",
  'C01_5': "a layout whose storage order (custom BasisBladeOrder / legacy bladeTupList) does not store the scalar first",
  'C01_6': "the deprecated Layout(sig, bladeTupList) constructor with a tuple that is an odd permutation of ascending order, e.g. (2, 1)",
  'C03_5': "a grade-restricted kernel and operands of a dtype narrower than the native integer (int32; float32 / complex64 without the JIT)",
